@@ -289,6 +289,18 @@ def verifyLoop (files : List DFile) (quick : Bool) : List DatLine → Option Err
       else if !quick && f.content ≠ l.sum then some .verifySum
       else verifyLoop files quick t
 
+def insertAscK {α} (p : Nat × α) : List (Nat × α) → List (Nat × α)
+  | [] => [p]
+  | q :: t => if p.1 ≤ q.1 then p :: q :: t else q :: insertAscK p t
+
+/-- `sorted(...)` of the `.dat` file names (by date) -/
+def sortAscK {α} (l : List (Nat × α)) : List (Nat × α) := l.foldr insertAscK []
+
+/-- the lines `do_verify` reads: first the `.dat` next to `repofiles[0]`, then every other `.dat`
+    of the repository in name order (`fileinput.input([datfile] + sorted(others))`) -/
+def verifyLines (r : Repo) (d0 : Nat) (first : List DatLine) : List DatLine :=
+  first ++ (sortAscK (r.dats.filter (fun p => p.1 ≠ d0))).flatMap (fun p => p.2)
+
 /-- `do_verify` (`now` = the current time: `--date` is ignored in verify mode) -/
 def doVerify (r : Repo) (quick : Bool) (now : Nat) : Option Err :=
   match findFiles r now with
@@ -296,7 +308,7 @@ def doVerify (r : Repo) (quick : Bool) (now : Nat) : Option Err :=
   | f0 :: _ =>
     match getK f0.name.date r.dats with
     | none => some .osError
-    | some lines => verifyLoop r.files quick lines
+    | some lines => verifyLoop r.files quick (verifyLines r f0.name.date lines)
 
 /-! ### single-file damages of the repository -/
 
@@ -304,6 +316,10 @@ def delFile (nm : Name) (r : Repo) : Repo := { r with files := r.files.filter (f
 
 def setContent (nm : Name) (c : Bytes) (r : Repo) : Repo :=
   { r with files := r.files.map (fun f => if f.name = nm then { f with content := c } else f) }
+
+/-- not "backup files recorded" in the sense of the property, but used by the correspondence check -/
+def delDat (d : Nat) (r : Repo) : Repo := { r with dats := delK d r.dats }
+def delIdx (d : Nat) (r : Repo) : Repo := { r with idxs := delK d r.idxs }
 
 /-! ### the system: a live source and its repository -/
 
